@@ -319,7 +319,11 @@ func c22MPEG4Video(t *testing.T, r *vmon.Run, rng *rand.Rand, si int) {
 		}
 		var frame []byte
 		hasConf, hasGOV := false, false
-		switch rng.IntN(5) {
+		switch rng.IntN(6) {
+		case 3: // user data (or a repeated VOL header) + GOV + VOP: a key frame that does not start with the GOV
+			pre := [][]byte{{0, 0, 1, 0xB2, 'x', 'y'}, {0, 0, 1, 0x20, 0x08}, {0, 0, 1, 0xB5, 0x09}}[rng.IntN(3)]
+			frame = append(append(append(append(frame, pre...), gov...), 1, 2, 3), append(append([]byte(nil), vop...), body...)...)
+			hasGOV = true
 		case 0: // config + GOV + VOP
 			c := mkConf()
 			for i := 4; i < len(c); i++ {
